@@ -344,7 +344,7 @@ func init() {
 	harness.Register(&harness.Check{
 		ID:    "C12",
 		Level: "fault_enumeration",
-		Rule: "partly symbolized profiles (sparse and colliding function ids incl. id == len+1, several mappings incl. fake/vdso/http ones, addresses at mapping edges, folded locations) x 16 mode strings (local, fastlocal, remote, none, force, demangle=*, combinations, unknown) x scripted ObjTool and symbolz endpoint answering deterministically from a seed: open failure, wrong/equal build id, empty/error/1-3 inline frames with hostile names, HTTP 500, empty, garbage, partial answers, extra addresses, overflowing addresses, adjusted source offsets; then the same run repeated with a failure injected at EVERY call index 1..N of the scripted sequence. " +
+		Rule: "partly symbolized profiles (sparse and colliding function ids incl. id == len+1, several mappings incl. fake/vdso/http ones and two mappings reported at the same address range, unmapped locations whose address equals a mapped one, addresses at mapping edges, folded locations) x 16 mode strings (local, fastlocal, remote, none, force, demangle=*, combinations, unknown) x scripted ObjTool and symbolz endpoint answering deterministically from a seed: open failure, wrong/equal build id, empty/error/1-3 inline frames with hostile names, HTTP 500, empty, garbage, partial answers, extra addresses, overflowing addresses, adjusted source offsets; then the same run repeated with a failure injected at EVERY call index 1..N of the scripted sequence. " +
 			"oracle: snapshot frame condition (samples, values, labels, stack depth and order, location addresses, mapping ranges unchanged), independent validity + unique ids, lines of has_functions mappings untouched unless force, no non-empty name becomes empty. non-trivial = the plug-ins were called at least once; distinct = (mode, scripted sequence)",
 		Assumptions:   []string{"function ids below 2^62 (new ids are allocated above the largest one)", "fail-at-call-k is exhaustive over the calls of each scripted sequence; the sequences themselves are sampled"},
 		Parts:         []harness.Part{{Name: "symbolize", Quick: 6000, Thor: 300000, Run: run}},
